@@ -42,7 +42,11 @@ def modelled : List String := [
   "utils.HexDecodeInto",
   "utils.HexEncode",
   "utils.SetBigIntFromLEBytes",
-  "utils.SwapEndianness"
+  "utils.SwapEndianness",
+  "babyjub.<decls>@babyjub.go",
+  "babyjub.<decls>@eddsa.go",
+  "babyjub.<decls>@helpers.go",
+  "utils.<decls>@utils.go"
 ]
 
 theorem source_pinned : modelled.all (same I3.Gen.fingerprints) = true := by decide +kernel
@@ -50,6 +54,6 @@ theorem source_pinned : modelled.all (same I3.Gen.fingerprints) = true := by dec
 theorem function_set_pinned : (["babyjub.", "utils."] : List String).all (sameKeys I3.Gen.fingerprints) = true := by
   decide +kernel
 
-theorem modelled_nonempty : 34 = modelled.length := by decide
+theorem modelled_nonempty : 38 = modelled.length := by decide
 
 end I3.Props.C15
